@@ -5,13 +5,13 @@ Model: `Model/JsonIO.lean` (`toDict` = `triangle_to_dict`; `decode` = `json.JSON
 `plainRead`, an independent hook-free reading of a document of the documented shape.
 Only property theorems here; helpers in `Lemmas/JsonIO.lean`.
 
-Plan of the full statement (DESIGN §7 C07 T):
-  A  toDict_shape    : WFjson t → plainRead (toDict t) = some (asTyped t)
-  B  fromDict_plain  : plainRead j = some cells → fromDict j = ofJCells cells
-  C  ofJCells_asTyped: WFjson t → ofJCells (asTyped t) = .ok (asTyped t)              (proved)
-  ⇒  fromDict_toDict : WFjson t → fromDict (toDict t) = .ok (asTyped t)               (A, B open)
+Structure of the full statement (DESIGN §7 C07 T), all proved:
+  A  toDict_shape    : WFjson t → plainRead (toDict t) = some (asTyped t)      (Lemmas/JsonIOEncode)
+  B  fromDict_plain  : plainRead j = some cells → fromDict j = ofJCells cells  (Lemmas/JsonIODecode)
+  C  ofJCells_asTyped: WFjson t → ofJCells (asTyped t) = .ok (asTyped t)
+  ⇒  fromDict_toDict : WFjson t → fromDict (toDict t) = .ok (asTyped t)
 -/
-import Bermuda.Lemmas.JsonIO
+import Bermuda.Lemmas.JsonIOEncode
 import Bermuda.Spec.C07
 namespace Bermuda.Properties.C07
 open Bermuda Bermuda.JsonIO Bermuda.Spec.C07
@@ -22,43 +22,8 @@ def errIs {α} (r : Except Err α) (e : Err) : Bool :=
 /-! ### dates: ISO text is read back exactly -/
 
 /-- `strptime(strftime(d))` is `d` for real dates with a four-digit year -/
-theorem parseIso_dateIso (d : Date) (h : wfDate d = true) : parseIso (dateIso d) = .ok d := by
-  obtain ⟨y, m, dd⟩ := d
-  simp only [wfDate, Date.valid, Bool.and_eq_true, decide_eq_true_eq] at h
-  obtain ⟨⟨⟨⟨⟨hm1, hm2⟩, hd1⟩, hd2⟩, hy1⟩, hy2⟩ := h
-  have hdd : dd < 32 := by have := dim_le_31 y m; omega
-  obtain ⟨n, rfl⟩ : ∃ n : Nat, y = (n : Int) := ⟨y.toNat, by omega⟩
-  have hn1 : 1000 ≤ n := by omega
-  have hn2 : n ≤ 9999 := by omega
-  unfold parseIso dateIso dateIsoChars yearChars
-  simp only [String.toList_ofList, Int.toNat_natCast, natDigits_year n hn1 hn2, pad2,
-    List.cons_append, List.nil_append]
-  unfold parseIsoChars
-  rw [splitDash4 _ _ _ _ _ (by rw [digitChar_mod]; exact digitChar_ne_dash _ (Nat.mod_lt _ (by omega)))
-    (by rw [digitChar_mod]; exact digitChar_ne_dash _ (Nat.mod_lt _ (by omega)))
-    (by rw [digitChar_mod]; exact digitChar_ne_dash _ (Nat.mod_lt _ (by omega)))
-    (by rw [digitChar_mod]; exact digitChar_ne_dash _ (Nat.mod_lt _ (by omega)))]
-  simp only []
-  rw [splitDash2 _ _ _ (by rw [digitChar_mod]; exact digitChar_ne_dash _ (Nat.mod_lt _ (by omega)))
-    (by rw [digitChar_mod]; exact digitChar_ne_dash _ (Nat.mod_lt _ (by omega)))]
-  simp only []
-  have e1 : digitVal? (digitChar (n / 1000)) = some (n / 1000) := digitVal_digitChar _ (by omega)
-  have e2 : digitVal? (digitChar (n / 100)) = some (n / 100 % 10) := by
-    rw [digitChar_mod]; exact digitVal_digitChar _ (Nat.mod_lt _ (by omega))
-  have e3 : digitVal? (digitChar (n / 10)) = some (n / 10 % 10) := by
-    rw [digitChar_mod]; exact digitVal_digitChar _ (Nat.mod_lt _ (by omega))
-  have e4 : digitVal? (digitChar n) = some (n % 10) := by
-    rw [digitChar_mod]; exact digitVal_digitChar _ (Nat.mod_lt _ (by omega))
-  have e5 := smallField_month m (by omega) hm1
-  have e6 := smallField_day dd hdd hd1
-  simp only [pad2] at e5 e6
-  rw [e1, e2, e3, e4, e5, e6]
-  simp only []
-  have hy : 1000 * (n / 1000) + 100 * (n / 100 % 10) + 10 * (n / 10 % 10) + n % 10 = n := by omega
-  rw [hy]
-  have : ¬ (n = 0 ∨ m > 12 ∨ dd > dim (n : Int) m) := by omega
-  simp [this]
-
+theorem parseIso_dateIso (d : Date) (h : wfDate d = true) : parseIso (dateIso d) = .ok d :=
+  JsonIO.parseIso_dateIso d h
 
 /-- the restriction is real: glibc prints year 999 as "999", which `%Y` (four digits) refuses -/
 theorem year_999_not_read_back :
@@ -92,15 +57,29 @@ theorem ofJCells_asTyped (t : List JCell) (h : WFjson t = true) :
   exact (pairwise_of_sortedJ t hs).imp (fun {a b} hab => by rw [le_typed]; exact hab)
 
 
-/-- **fromDict_toDict, modulo the two open statements.** The round trip follows from: the written
-document read plainly is the original (A), the decoder with its hook agrees with the plain reading
-on documents of that shape (B), and C above. A and B are hypotheses here (they are the OPEN
-statements below); everything else is proved. -/
-theorem fromDict_toDict_partial (t : List JCell) (h : WFjson t = true)
-    (hA : plainRead (toDict t) = some (asTyped t))
-    (hB : ∀ j cells, plainRead j = some cells → fromDict j = ofJCells cells) :
+/-- **toDict_shape.** The JSON text's AST, read by a plain reader that knows nothing of the
+library's hook, is the original triangle: each slice's metadata attributes once (`None` / `{}`
+omitted), the cells in order with ISO dates, `prev_evaluation_date` exactly on incremental cells,
+every value with its kind (int vs float, `None`, arrays in order). -/
+theorem toDict_shape (t : List JCell) (h : WFjson t = true) :
+    plainRead (toDict t) = some (asTyped t) :=
+  JsonIO.toDict_shape t h
+
+/-- **fromDict_plain.** Any document of the documented shape, however it was produced (a plain
+serializer), is loaded by the library's decoder — hook applied bottom-up to every object,
+`values` / `details` / `loss_details` objects included — to `Triangle(cells)` of the cells a plain
+reading finds. -/
+theorem fromDict_plain (j : JVal) (cells : List JCell) (h : plainRead j = some cells) :
+    fromDict j = ofJCells cells :=
+  JsonIO.fromDict_plain j cells h
+
+/-- **fromDict_toDict.** Export followed by import is the identity on well-formed triangles, up
+to `Cell` → `CumulativeCell`: period, evaluation and previous-evaluation dates (so the basis), all
+eight metadata attributes with the Python kind of limit and detail values, field names, int vs
+float scalars, `None`, and arrays with dtype and order. -/
+theorem fromDict_toDict (t : List JCell) (h : WFjson t = true) :
     fromDict (toDict t) = .ok (asTyped t) := by
-  rw [hB _ _ hA, ofJCells_asTyped t h]
+  rw [fromDict_plain _ _ (toDict_shape t h), ofJCells_asTyped t h]
 
 /-! ### non-vacuity and a concrete round trip (kernel evaluation of the model) -/
 
@@ -132,25 +111,5 @@ theorem ex_risk_basis_none :
 theorem ex_field_named_cells :
     errIs (fromDict (toDict (ex.map fun c => { c with values := [("cells", .int 1)] }))) .typeError = true := by
   decide +kernel
-
-/-! ### statements not proved yet (the correspondence checks them on every run) -/
-
--- OPEN toDict_shape
---   theorem toDict_shape (t : List JCell) (h : WFjson t = true) : plainRead (toDict t) = some (asTyped t)
---   (each slice's metadata attributes once, in `as_dict` order, `None`/`{}` omitted; cells in order with ISO
---    dates, `prev_evaluation_date` exactly for incremental cells, arrays as lists. Needs: the groups of
---    `groupBy` on a sorted, metadata-coherent list concatenate to the list (`sorted_contiguous`);
---    `parseIso_dateIso`; `readVal (valToJ v) = some v` for `wfVal v`.)
-
--- OPEN fromDict_plain
---   theorem fromDict_plain (j : JVal) (cells : List JCell) (h : plainRead j = some cells) :
---     fromDict j = ofJCells cells
---   (any AST of the documented shape, however produced: the hook fires on every object bottom-up, the
---    `values` / `details` / `loss_details` objects pass through it unchanged because `plainRead` demands
---    trigger-free keys. Mutual induction over `decode`/`decodeList`/`decodeKvs`.)
-
--- OPEN fromDict_toDict
---   theorem fromDict_toDict (t : List JCell) (h : WFjson t = true) : fromDict (toDict t) = .ok (asTyped t)
---   (= fromDict_toDict_partial with A := toDict_shape, B := fromDict_plain)
 
 end Bermuda.Properties.C07
